@@ -1588,8 +1588,8 @@ void QXmppMessage::toXml(QXmlStreamWriter *writer, QXmpp::SceMode sceMode) const
     // extensions
     serializeExtensions(writer, sceMode);
 
-    // other, unknown extensions
-    QXmppStanza::extensionsToXml(writer);
+    // extended addresses (public part only) and other, unknown extensions
+    QXmppStanza::extensionsToXml(writer, sceMode);
 
     writer->writeEndElement();
 }
